@@ -90,7 +90,8 @@ def check_split(col, t):
 def _chunk(lines):
     col = core.Collector()
     for ln in lines:
-        check_split(col, json.loads(ln))
+        t = json.loads(ln)
+        core.guarded(col, lambda: check_split(col, t), "gen.pre_multisetup", f"case {t}"[:600], {"split": True, "transition": t})
         col.traces += 1
     return col
 
